@@ -14,6 +14,8 @@ import sys
 
 prop, k = sys.argv[1], sys.argv[2]
 checks = sys.argv[3:] or [prop]
+REPO2 = os.environ.get("SEED_REPO", "/repo")
+VERIF2 = os.environ.get("SEED_VERIF", "/verif")
 wt = f"/tmp/seed_{prop}"
 src = f"{wt}/out/{k}"
 dst = f"/verif/seeded/{prop}-{k}"
@@ -39,16 +41,16 @@ rc_clean, out = sh(f"/venv/bin/python {src}/demo.py", cwd=wt, env=env, timeout=6
 meta["demo_without_change_exit"] = rc_clean
 meta["confirmed"] = ("passed" in meta["tests_with_change"] and "failed" not in meta["tests_with_change"] and rc_demo != 0 and rc_clean == 0)
 # run the checks against /repo with the change applied
-rc, out = sh(f"git -C /repo apply {src}/patch.diff")
+rc, out = sh(f"git -C {REPO2} apply {src}/patch.diff")
 assert rc == 0, out
 results = {}
 try:
     for c in checks:
-        rc, out = sh(f"./check {c} --tier quick", cwd="/verif", timeout=1800)
+        rc, out = sh(f"./check {c} --tier quick", cwd=VERIF2, env=dict(os.environ, SECSGEM_REPO=REPO2), timeout=1800)
         lines = [l for l in out.splitlines() if l.startswith("VIOLATION")]
         results[c] = {"exit": rc, "violations": lines[:6]}
 finally:
-    sh("git -C /repo checkout -- .")
+    sh(f"git -C {REPO2} checkout -- .")
 meta["checks"] = results
 meta["detected_by"] = [c for c, r in results.items() if r["exit"] == 1]
 os.makedirs(dst, exist_ok=True)
